@@ -17,6 +17,8 @@ use ChildState::*;
 pub use communicate::Communicator;
 pub use os::ext as os_ext;
 pub use os::make_pipe;
+#[cfg(all(unix, subprocess_verif))]
+pub use os::verif_format_env;
 
 /// Interface to a running subprocess.
 ///
@@ -827,6 +829,13 @@ mod os {
             .collect();
         formatted.reverse();
         formatted
+    }
+
+    // Verification hook (see /verif): the private env formatter, compiled only
+    // with `--cfg subprocess_verif`.
+    #[cfg(subprocess_verif)]
+    pub fn verif_format_env(env: &[(OsString, OsString)]) -> Vec<OsString> {
+        format_env(env)
     }
 
     trait PopenOsImpl: super::PopenOs {
